@@ -84,6 +84,23 @@ Theorem C16_ffi_filter_string : forall s f, ffi_filter_v4 s = Some f ->
 Proof. exact ffi_filter_is_wildcard_semantics. Qed.
 Print Assumptions C16_ffi_filter_string.
 
+(* A string containing ':' is never a wildcard string and never an IPv4 literal: through the C ABI it can only be
+   taken as an IPv6 literal (or rejected). *)
+Theorem C16_colon_never_wildcard : forall s, In 58 s -> parse_wildcard s = None /\ parse_ipv4 s = None.
+Proof. exact (fun s H => conj (colon_never_wildcard s H) (colon_never_ipv4 s H)). Qed.
+Print Assumptions C16_colon_never_wildcard.
+
+(* The C-ABI filter string in full (IPv4 literal, else IPv6 literal, else wildcard), for ANY IPv6 literal parser
+   that accepts only strings containing a colon: the filter built either has the semantics of the well-formed
+   wildcard string s, or s is an IPv6 literal, not a wildcard, and exactly that address is admitted. *)
+Theorem C16_ffi_filter_full : forall parse_v6 : str -> option ip,
+  (forall s a, parse_v6 s = Some a -> In 58 s) ->
+  forall s f, ffi_filter parse_v6 s = Some f ->
+  (exists w, wildcard_string s w /\ forall peer, matches f peer = matches (WildcardIpv4 w) peer) \/
+  (exists a, parse_v6 s = Some a /\ parse_wildcard s = None /\ forall peer, matches f peer = true <-> peer = a).
+Proof. exact ffi_filter_semantics. Qed.
+Print Assumptions C16_ffi_filter_full.
+
 (* non-vacuity *)
 Example C16_parse_examples :
   map show_parse [[49;55;50;46;49;55;46;50;48;46;42]; [43;49;46;48;48;55;46;42;46;51]; [49;46;50;46;51];
